@@ -4,8 +4,16 @@ pub fn make_stream(id: &str, total: usize, final_newline: bool) -> Vec<u8> {
     let mut v = Vec::with_capacity(total + 128);
     let mut seq = 0u64;
     while v.len() < total {
-        let line = format!("{}:{:06}:{}\n", id, seq, "abcdefghijklmnopqrstuvwxyz0123456789".repeat(1 + (seq % 3) as usize));
+        let line = format!("{}:{:06}:{}", id, seq, "abcdefghijklmnopqrstuvwxyz0123456789".repeat(1 + (seq % 3) as usize));
         v.extend_from_slice(line.as_bytes());
+        // commands print whatever bytes they like: Latin-1, truncated UTF-8, binary
+        match seq % 4 {
+            1 => v.extend_from_slice(b" caf\xe9 \xff\xfe\x80"),
+            2 => v.extend_from_slice(" é ビ 😀".as_bytes()),
+            3 => v.extend_from_slice(b" \xe3\x83"),
+            _ => {}
+        }
+        v.push(b'\n');
         seq += 1;
     }
     v.truncate(total);
